@@ -879,11 +879,20 @@ def wl_inverse(run, rng, idx):
     # forms with eigenvalues +-1.)  Generic A, B only (no zero-entry classes: F35).
     if fam_is_generic(A) and fam_is_generic(B) and fam_is_generic(A @ B):
         J = np.diag([-1.0, 1.0, 1.0])
-        fk = ["positive-multiple", "diagonal-scaling", "generic-congruence", "orthogonal-congruence"][idx % 4]
+        fk = ["positive-multiple", "diagonal-scaling", "generic-congruence", "orthogonal-congruence",
+              "permuted-diagonal", "scaled-permuted-diagonal"][idx % 6]
         if fk == "positive-multiple":
             Pm = np.eye(3) * float(np.exp(rng.uniform(np.log(0.3), np.log(4.0))))
         elif fk == "diagonal-scaling":
             Pm = np.diag(np.exp(rng.uniform(np.log(0.4), np.log(3.0), size=3)))
+        elif fk in ("permuted-diagonal", "scaled-permuted-diagonal"):
+            # exactly diagonal forms whose negative entry is NOT in the first slot
+            # (seeded change C17-r5-1: a diagonal-form fast path hard-coding the
+            # basis order of diag(-1,1,1))
+            perm = [(1, 0, 2), (1, 2, 0), (2, 1, 0), (2, 0, 1), (0, 2, 1)][(idx // 6) % 5]
+            Pm = np.eye(3)[list(perm)]
+            if fk == "scaled-permuted-diagonal":
+                Pm = Pm @ np.diag(np.exp(rng.uniform(np.log(0.4), np.log(3.0), size=3)))
         elif fk == "generic-congruence":
             Pm = lr.rand_cond(rng, 3, 8.0) if hasattr(lr, "rand_cond") else None
             if Pm is None:
